@@ -53,6 +53,44 @@ func init() {
 		Mutant{Name: "x-recovery-drops-leo-recheck", File: "pkg/channel/replication/recovery_owner.go", Old: "if quorumFrontier(stableCommitted, request.Quorum) != certifiedCommitted || quorumFrontier(stableLEOs, request.Quorum) != quorumLEO {", New: "_ = stableLEOs\n\t\tif quorumFrontier(stableCommitted, request.Quorum) != certifiedCommitted {", Expect: "C01/X2*"},
 	)
 
+	// ---- C03 -----------------------------------------------------------------------------
+	// "reusing a command identity with different content is rejected" rests on the entry digest
+	// being injective over the record: the same framing clauses as C05 (seed C03-c removed the
+	// length prefix of the variable-length fields, so content shifted across a field boundary
+	// seals to the same identity and is accepted as an exact retry).
+	extend("C03", []string{"./pkg/quorumlog"}, func(c *Ctx) {
+		digest := c.Fn("pkg/quorumlog.digestProposalEntry")
+		if digest == nil {
+			return
+		}
+		c05Flow(c, digest, "pkg/quorumlog.Record", map[string]string{"Index": "forced equal to entry.Index (C05-R3)", "Epoch": "forced equal to entry.ChannelEpoch (C05-R3)"})
+		c05Flow(c, digest, "pkg/quorumlog.EntryIdentity", map[string]string{"Version": "domain-separation literal", "Digest": "the output"})
+		c05Branches(c, digest)
+	},
+		Mutant{Name: "x-digest-no-length-prefix", File: "pkg/quorumlog/proposal.go", Old: "\t\twriteUint64(uint64(len(value)))\n", New: "", Expect: "C03/R2-framing*"},
+	)
+
+	// ---- C07 -----------------------------------------------------------------------------
+	// lookups by (sender, client message number) stay exact only if the negative idempotency filter
+	// is never trusted while incomplete: the loaded flag and the filter contents travel together
+	// between an entry and its warm state (seed C07-a kept the flag and dropped the filter).
+	extend("C07", nil, func(c *Ctx) {
+		c08PairedCopy(c, "X1-warm-filter", c.Fn("pkg/db/message.channelRegistry.acquire"))
+		c08PairedCopy(c, "X1-warm-filter", c.Fn("pkg/db/message.channelRegistry.retainWarmLocked"))
+	},
+		Mutant{Name: "x-warm-state-drops-filter", File: "pkg/db/message/channel_registry.go", Old: "entry.idempotencyMembership = warm.idempotencyMembership", New: "_ = warm.idempotencyMembership", Expect: "C07/X1*"},
+	)
+
+	// ---- C09 -----------------------------------------------------------------------------
+	// a suffix replacement is one atomic mutation: the rows deleted are ALL rows above KeepThrough
+	// (seed C09-b read only up to the new tail, leaving the old, longer tail and its indexes behind).
+	extend("C09", nil, func(c *Ctx) {
+		rep := c.Fn("pkg/db/message.ChannelStore.ReplaceRecoverySuffix")
+		c.CallShape("X1-replace-deletes-whole-suffix", rep, "*.readRows", "*(s.log, ctx, (req.KeepThrough + 1), 0, zero:ReadOptions)")
+	},
+		Mutant{Name: "x-replace-keeps-old-tail", File: "pkg/db/message/recovery_replace.go", Old: "readRows(ctx, req.KeepThrough+1, 0,", New: "readRows(ctx, req.KeepThrough+1, finalOffset,", Expect: "C09/X1*"},
+	)
+
 	// ---- C04 -----------------------------------------------------------------------------
 	extend("C04", nil, func(c *Ctx) {
 		// X1: the current-term barrier is written only by an authority strictly newer than the
